@@ -130,19 +130,23 @@ def findall_body(cfg):
             ref = _call(search.find, nodes[s], filter_=filt, stop=stop, maxlevel=maxlevel)
         if not _same(nodes, res, ref):
             return {"why": "cachedsearch differs from search", "fn": which}
-        # the same call (same argument objects) after the tree changed must reflect the current tree
+        # the same call (same argument objects) after the tree changed must reflect the current tree.
+        # Run un-traced with concrete arguments: CrossHair deliberately bypasses functools.lru_cache under tracing
+        # (crosshair/libimpl/functoolslib.py), which would hide any caching layer from this obligation.
+        from vlib.nondet import concrete_region
+
         if n >= 2:
             victim = nodes[(s + 1) % n] if (s + 1) % n != s else None
             if victim is not None and victim.parent is not None:
-                victim.parent = None
-                if which == "findall":
-                    again = _call(mod.findall, nodes[s], filter_=filt, stop=stop, maxlevel=maxlevel, mincount=mincount, maxcount=maxcount)
-                    ref2 = _call(search.findall, nodes[s], filter_=filt, stop=stop, maxlevel=maxlevel, mincount=mincount, maxcount=maxcount)
-                else:
-                    again = _call(mod.find, nodes[s], filter_=filt, stop=stop, maxlevel=maxlevel)
-                    ref2 = _call(search.find, nodes[s], filter_=filt, stop=stop, maxlevel=maxlevel)
-                if not _same(nodes, again, ref2):
-                    return {"why": "cachedsearch returns a stale result after the tree changed", "fn": which}
+                with concrete_region():
+                    fn_c = mod.findall if which == "findall" else mod.find
+                    fn_s = search.findall if which == "findall" else search.find
+                    _call(fn_c, nodes[s], filter_=filt, stop=stop)
+                    victim.parent = None
+                    again = _call(fn_c, nodes[s], filter_=filt, stop=stop)
+                    ref2 = _call(fn_s, nodes[s], filter_=filt, stop=stop)
+                    if not _same(nodes, again, ref2):
+                        return {"why": "cachedsearch returns a stale result after the tree changed", "fn": which}
     return True
 
 
